@@ -126,6 +126,7 @@ func c16(r *core.Run) {
 	c16Strict(r)
 	c16EnumRule(r, "C16.ENUM")
 	c16Walk(r)
+	c16Handle(r)
 	c16Attr(r)
 }
 
@@ -438,6 +439,44 @@ func c16EnumRule(r *core.Run, rule string) {
 		}
 	}
 	r.Floor(rule, "package-member enumerations", nSw, 2)
+}
+
+// c16Handle: every result the fingerprinter produces for a function carries that function's SSA handle, because the
+// scan stage reaches a function only through it (a result without it is listed but never scanned, and no error says so).
+func c16Handle(r *core.Run) {
+	p := r.P
+	n := 0
+	for _, fn := range p.FuncsIn("pkg/diff") {
+		rt := resultTypes(fn)
+		if len(rt) != 1 || !core.IsNamed(rt[0], diffPath(p), "FingerprintResult") || fn.Parent() != nil {
+			continue
+		}
+		var subject *ssa.Parameter
+		for _, pa := range fn.Params {
+			if isSSAFunctionPtr(pa.Type()) {
+				subject = pa
+			}
+		}
+		if subject == nil {
+			continue
+		}
+		for _, ret := range core.Returns(fn) {
+			n++
+			st, _ := core.Deref(ret.Results[0].Type()).Underlying().(*types.Struct)
+			handle := ""
+			if st != nil {
+				for i := 0; i < st.NumFields(); i++ {
+					if isSSAFunctionPtr(st.Field(i).Type()) {
+						handle = st.Field(i).Name()
+					}
+				}
+			}
+			v, ok := core.StructLitField(ret.Results[0], handle)
+			good := handle != "" && ok && v != nil && core.Resolve(v) == ssa.Value(subject)
+			r.Check(good, "C16.ENUM", core.FuncName(fn)+"#result-carries-function", ret.Pos(), "the result carries the SSA function it describes", "a fingerprint result is returned without the SSA function it describes: the scan stage cannot reach that function (it is listed, never scanned, and nothing reports it)")
+		}
+	}
+	r.Floor("C16.ENUM", "results returned by the per-function fingerprinter", n, 2)
 }
 
 func c16Walk(r *core.Run) {
